@@ -164,11 +164,17 @@ var newUClientConnection = func(
 
 	var params *wire.TransportParameters
 
+	// [UQUIC] The ClientHelloSpec this connection hands to uTLS. A QUICSpec value may be
+	// dialed any number of times (and by several connections at once), so everything a
+	// dial writes must go into the connection's own copy, see dialClientHelloSpec.
+	var clientHelloSpec *tls.ClientHelloSpec
+
 	if uSpec.ClientHelloSpec != nil {
+		clientHelloSpec = dialClientHelloSpec(uSpec.ClientHelloSpec)
 		// iterate over all Extensions to set the TransportParameters
 		var tpSet bool
 	FOR_EACH_TLS_EXTENSION:
-		for _, ext := range uSpec.ClientHelloSpec.Extensions {
+		for _, ext := range clientHelloSpec.Extensions {
 			switch ext := ext.(type) {
 			case *tls.QUICTransportParametersExtension:
 				params = &wire.TransportParameters{
@@ -177,7 +183,11 @@ var newUClientConnection = func(
 				// [UQUIC] uTLS serializes ext.TransportParameters directly into the
 				// ClientHello (the wire) via ApplyPreset below, and caches the marshaled
 				// bytes on first use — so both of the rewrites here must happen now, on
-				// that exact slice.
+				// that exact slice. ext is this connection's own extension object (its
+				// list is a copy of the spec's, nothing is cached in it yet): the spec
+				// itself is left as the caller wrote it, so the next dial starts from the
+				// same list again, draws its own order and fills in its own source
+				// connection ID.
 				//
 				// Drop suppressed parameters first, so what follows (the shuffle, and
 				// PopulateFromUQUIC's view of our own parameters) sees exactly the set
@@ -252,7 +262,7 @@ var newUClientConnection = func(
 		s.qlogger,
 		logger,
 		s.version,
-		uSpec.ClientHelloSpec,
+		clientHelloSpec,
 	)
 	s.cryptoStreamHandler = cs
 	s.cryptoStreamManager = newCryptoStreamManager(s.initialStream, s.handshakeStream, oneRTTStream)
@@ -272,4 +282,48 @@ var newUClientConnection = func(
 		}
 	}
 	return &wrappedConn{Conn: s}
+}
+
+// dialClientHelloSpec returns the ClientHelloSpec one connection works on: a copy of the
+// spec's in which every extension object that a dial writes to is replaced by an object
+// of the connection's own.
+//
+// uTLS keeps per-connection state inside the extension objects of the ClientHelloSpec it
+// is given, and newUClientConnection edits the transport parameter list. Sharing those
+// objects between the dials of one QUICSpec value broke every dial but the first (and,
+// after a Version Negotiation packet, the second connection built inside one Dial):
+//
+//   - QUICTransportParametersExtension caches its marshaled bytes on first use, so later
+//     dials sent the first dial's parameters — its order (RandomizeTransportParameters was
+//     not re-drawn), its suppression set, and its initial_source_connection_id, which
+//     PopulateFromUQUIC had written into the shared list and which a server rejects
+//     (TRANSPORT_PARAMETER_ERROR) because it is not the new connection's ID;
+//   - KeyShareExtension receives the generated public keys; uTLS takes a non-empty key
+//     share as supplied by the caller and generates no key for it, so later dials sent
+//     the first dial's public keys without holding the private keys and failed with a
+//     TLS internal error (and a HelloRetryRequest rewrites the list);
+//   - SNIExtension receives the server name when it is empty, so later dials to another
+//     host sent the first host's name.
+//
+// The transport parameter objects themselves stay shared: a GREASE parameter's ID and
+// value are drawn once per spec, as documented on QUICSpec.
+func dialClientHelloSpec(chs *tls.ClientHelloSpec) *tls.ClientHelloSpec {
+	c := *chs
+	c.Extensions = make([]tls.TLSExtension, len(chs.Extensions))
+	for i, ext := range chs.Extensions {
+		switch ext := ext.(type) {
+		case *tls.QUICTransportParametersExtension:
+			c.Extensions[i] = &tls.QUICTransportParametersExtension{
+				TransportParameters: slices.Clone(ext.TransportParameters),
+			}
+		case *tls.KeyShareExtension:
+			c.Extensions[i] = &tls.KeyShareExtension{KeyShares: slices.Clone(ext.KeyShares)}
+		case *tls.SNIExtension:
+			sni := *ext
+			c.Extensions[i] = &sni
+		default:
+			c.Extensions[i] = ext
+		}
+	}
+	return &c
 }
